@@ -70,7 +70,18 @@ def main():
             tail = s.stdout.strip().splitlines()[-1] if s.stdout.strip() else ''
             meta['suite'] = dict(cmd='/venv/bin/python -m pytest -q -p no:cacheprovider --timeout=900 test_syncobj.py',
                                  summary=tail, failed=sorted(failed), unexpected=sorted(failed - ALLOWED_FAIL), wall_s=round(time.time() - t0))
-            print(sid, 'suite:', tail, 'unexpected failures:', sorted(failed - ALLOWED_FAIL))
+            unexpected = failed - ALLOWED_FAIL
+            for attempt in range(3):
+                # timing-dependent tests fail now and then on a loaded machine (with and without a change): re-run them alone
+                if not unexpected:
+                    break
+                s2 = sh('/venv/bin/python', '-m', 'pytest', '-q', '-p', 'no:cacheprovider', '--timeout=900', 'test_syncobj.py',
+                        '-k', ' or '.join(sorted(unexpected)), cwd=wt, env=env, timeout=3000)
+                still = set(re.findall(r'^FAILED test_syncobj.py::(\w+)', s2.stdout, re.M))
+                meta['suite'].setdefault('reruns', []).append(dict(tests=sorted(unexpected), still_failing=sorted(still)))
+                unexpected = still
+            meta['suite']['unexpected_after_reruns'] = sorted(unexpected)
+            print(sid, 'suite:', tail, 'unexpected failures:', sorted(failed - ALLOWED_FAIL), 'after re-runs:', sorted(unexpected))
             sh('git', '-C', wt, 'checkout', '--', 'journal4.bin.meta', 'journal5.bin.meta')
         res = meta.setdefault('checks', {})
         for c in checks:
